@@ -617,6 +617,9 @@ type c10Combo struct {
 	// operand, must be refused; "func-type": the notation names a defined func type of the fitting signature instead of a
 	// function (must be refused: `T(dst, src)` is a conversion)
 	OperandVariant string
+	// MixedExtras (Pos "both" only): the preprocess hook declares the additional parameters, the postprocess hook does not
+	// (or the other way round when MixedExtras is 2); each call passes exactly what its hook declares
+	MixedExtras int
 }
 
 func (c c10Combo) legal() bool {
@@ -699,7 +702,11 @@ func c10Method(c c10Combo, idx int, uf *pg.UserFuncs) pg.Method {
 			case "func-type":
 				uf.NextAsType = true
 			}
-			name := uf.Hook(pos[:3], hd, c.HDstPtr, hs, c.HSrcPtr, hx, c.HErr)
+			hxe := hx
+			if c.MixedExtras == 1 && pos == "postprocess" || c.MixedExtras == 2 && pos == "preprocess" {
+				hxe = nil
+			}
+			name := uf.Hook(pos[:3], hd, c.HDstPtr, hs, c.HSrcPtr, hxe, c.HErr)
 			m.Notes = append(m.Notes, pg.Notation{Kind: pos, Args: []string{name}})
 		}
 	}
@@ -755,6 +762,13 @@ func c10All() []c10Combo {
 						c2 := c
 						c2.SharedWithFit = true
 						out = append(out, c2)
+					}
+					if c.legal() && pos == "both" && c.HExtras && ex > 0 {
+						for mx := 1; mx <= 2; mx++ {
+							c2 := c
+							c2.MixedExtras = mx
+							out = append(out, c2)
+						}
 					}
 					if c.legal() {
 						for _, v := range []string{"twin-dst", "twin-src", "func-type"} {
